@@ -23,6 +23,7 @@ type PropSpec struct {
 	Exclude   []string          `json:"exclude"`   // regexps on "pkg funcKey" removed from Units
 	Kinds     []string          `json:"kinds"`     // obligation kinds that count for this property (prefix match); empty = all
 	Undecided map[string]string `json:"undecided"` // regexp on obligation name -> reason (not claimed, never counted as proved)
+	Closure   bool                `json:"closure"` // also check every function of the verified packages statically reachable from the units
 	Borrow    map[string][]string `json:"borrow"`  // obligation kind prefix -> tags of other properties whose obligations of that kind count here too
 	Note      string            `json:"note"`
 }
@@ -129,6 +130,50 @@ func cmdCheck(args []string) {
 		}
 		units = append(units, w.verifyUnit(fn, []string{*prop}))
 	}
+	if spec.Closure {
+		// the property is about everything the units can run: add the functions they reach (static calls and closures)
+		seen := map[*ssa.Function]bool{}
+		var work []*ssa.Function
+		for _, u := range units {
+			seen[u.Fn] = true
+			work = append(work, u.Fn)
+		}
+		// inline-marked functions are reached through their callers: still walk them
+		for _, fn := range w.funcs {
+			key := w.pkgOf(fn).Pkg.Name() + " " + funcKey(fn)
+			if matchAny(unitRes, key) && !matchAny(exclRes, key) && !seen[fn] {
+				seen[fn] = true
+				work = append(work, fn)
+			}
+		}
+		for len(work) > 0 {
+			fn := work[len(work)-1]
+			work = work[:len(work)-1]
+			for _, b := range fn.Blocks {
+				for _, ins := range b.Instrs {
+					var callee *ssa.Function
+					switch x := ins.(type) {
+					case ssa.CallInstruction:
+						callee = x.Common().StaticCallee()
+					case *ssa.MakeClosure:
+						callee, _ = x.Fn.(*ssa.Function)
+					}
+					if callee == nil || seen[callee] || !w.inScope(callee) || callee.Blocks == nil {
+						continue
+					}
+					seen[callee] = true
+					work = append(work, callee)
+					if con := w.contractFor(callee); con != nil && con.Inline {
+						continue
+					}
+					if matchAny(exclRes, w.pkgOf(callee).Pkg.Name()+" "+funcKey(callee)) {
+						continue
+					}
+					units = append(units, w.verifyUnit(callee, []string{*prop}))
+				}
+			}
+		}
+	}
 	genSecs := time.Since(genT).Seconds()
 	kindOK := func(o *Oblig) bool {
 		if len(spec.Kinds) == 0 {
@@ -190,6 +235,10 @@ func cmdCheck(args []string) {
 	}
 	var ledger Ledger
 	haveLedger := readJSON(fmt.Sprintf("%s/ledger/%s.json", verifDir, *prop), &ledger) == nil
+	ledgerObs := map[string]bool{}
+	for _, n := range ledger.Obligations {
+		ledgerObs[n] = true
+	}
 	type undec struct {
 		re     *regexp.Regexp
 		reason string
@@ -258,8 +307,8 @@ func cmdCheck(args []string) {
 				}
 			}
 			if isUndecided != "" {
+				// deliberately not claimed: reported, never counted; it does not make the rest of the function "partial"
 				undecidedHits = append(undecidedHits, fmt.Sprintf("%s [%s] — %s", o.name, o.Status, isUndecided))
-				allOK = false
 				continue
 			}
 			total++
@@ -290,7 +339,12 @@ func cmdCheck(args []string) {
 			// undischarged and not known: a violation if this function was fully proved on the unchanged tree,
 			// or if the counterexample replays on the real code
 			replayPath, reproduced := w.replay(*prop, u, o)
-			inLedger := haveLedger && ledger.Functions[ukey] == "proved"
+			inLedger := haveLedger && (ledger.Functions[ukey] == "proved" || ledgerObs[o.name])
+			if strings.HasPrefix(o.Kind, "frame:") && o.Cond == "false" {
+				// a site the generator inspected and found in breach of a frame condition (global state, nondeterministic
+				// source, emission in a map range, direct Read): decided, not merely undischarged, wherever it appears
+				inLedger = true
+			}
 			switch {
 			case reproduced:
 				violations = append(violations, fmt.Sprintf("VIOLATION property=%s replay=%s", *prop, replayPath))
